@@ -145,6 +145,12 @@ class Interp:
             b = BUILTINS.get(n)
             if b is not None:
                 return Stub(n, b)
+            hl = self.higher_order(n)
+            if hl is not None:
+                return Stub(n, hl)
+            lv = _lib_value(n)
+            if lv is not None:
+                return lv if isinstance(lv, type) else Stub(n, lv)
             return Stub(n, None)
         if len(consts) == 1 and len(os_) == 1:
             return consts[0][1]
@@ -161,6 +167,33 @@ class Interp:
         if len(mods) == 1:
             return ("module", mods[0][1])
         raise AnalysisError(f"evaluator: cannot resolve name {name!r} in {getattr(scope, 'qualname', scope)}")
+
+    def higher_order(self, name):
+        """Library functions that call back into abstract callables (closures of the interpreted code)."""
+        def ap(f, *a):
+            return self.call(f, list(a), {})
+        table = {
+            "builtins.map": lambda f, *its: [ap(f, *xs) for xs in zip(*[self.iterate(i) for i in its])],
+            "builtins.filter": lambda f, it: [x for x in self.iterate(it) if (self.truth(ap(f, x)) if f is not None else self.truth(x))],
+            "builtins.sorted": lambda it, key=None, reverse=False: sorted(self.iterate(it), key=(lambda x: ap(key, x)) if key is not None else None, reverse=reverse),
+            "functools.reduce": lambda f, it, *init: __import__("functools").reduce(lambda a, b: ap(f, a, b), self.iterate(it), *init),
+            "functools.partial": lambda f, *a, **k: Stub("partial", lambda *b, **k2: self.call(f, list(a) + list(b), {**k, **k2})),
+            "functools.wraps": lambda f: (lambda g: g),
+            "functools.lru_cache": lambda *a, **k: (a[0] if len(a) == 1 and not k and isinstance(a[0], (Closure, Stub)) else (lambda g: g)),
+            "functools.cache": lambda g: g,
+            "builtins.print": lambda *a, **k: None,
+            "builtins.getattr": lambda o, a, *d: self._getattr_default(o, a, d),
+            "itertools.starmap": lambda f, it: [ap(f, *xs) for xs in self.iterate(it)],
+        }
+        return table.get(name)
+
+    def _getattr_default(self, o, a, d):
+        try:
+            return self.getattr(o, a)
+        except (AbsRaise, AnalysisError):
+            if d:
+                return d[0]
+            raise AbsRaise(f"AttributeError: {a}")
 
     # ------------------------------------------------------------------ calls
     def call(self, f, args, kwargs, where=""):
@@ -635,6 +668,11 @@ class Interp:
             if o.cls is not None:
                 got = o.cls.lookup(attr)
                 if isinstance(got, Func):
+                    decos = got.decorator_names()
+                    if "staticmethod" in decos:
+                        return Closure(got, None)
+                    if "classmethod" in decos:
+                        return Closure(got, None, bound_self=self.class_val(o.cls))
                     return Closure(got, None, bound_self=o)
             if attr == "__class__" and o.cls is not None:
                 return self.class_val(o.cls)
@@ -642,6 +680,8 @@ class Interp:
         if isinstance(o, ClassVal):
             got = o.cls.lookup(attr)
             if isinstance(got, Func):
+                if "classmethod" in got.decorator_names():
+                    return Closure(got, None, bound_self=o)
                 return Closure(got, None)
             if attr == "__name__":
                 return o.cls.name
@@ -655,17 +695,37 @@ class Interp:
                     if g[0] == "class":
                         return self.class_val(g[1])
                     if g[0] == "ext":
-                        return Stub(g[1], self.ext.get(g[1]) or BUILTINS.get(g[1]))
+                        fb = self.ext.get(g[1]) or BUILTINS.get(g[1]) or self.higher_order(g[1])
+                        if fb is None:
+                            lv = _lib_value(g[1])
+                            if isinstance(lv, type):
+                                return lv
+                            fb = lv
+                        return Stub(g[1], fb)
             raise AnalysisError(f"evaluator: module attribute {attr}")
         if isinstance(o, Stub):
             n = f"{o.name}.{attr}"
-            return Stub(n, self.ext.get(n) or BUILTINS.get(n))
+            fb = self.ext.get(n) or BUILTINS.get(n) or self.higher_order(n)
+            if fb is None:
+                lv = _lib_value(n)
+                if isinstance(lv, type):
+                    return lv
+                fb = lv
+            return Stub(n, fb)
+        if isinstance(o, type) and not attr.startswith("__"):
+            # methods of plain Python container types (dict.fromkeys, str.join ...)
+            try:
+                return getattr(o, attr)
+            except AttributeError:
+                raise AbsRaise(f"AttributeError: {attr}")
         if isinstance(o, str) and attr in ("join", "startswith", "endswith", "format", "replace", "split", "strip"):
             return getattr(o, attr)
-        if isinstance(o, dict) and attr in ("items", "values", "keys", "get", "setdefault"):
-            return getattr(o, attr)
-        if isinstance(o, list) and attr in ("append", "pop", "extend", "reverse"):
-            return getattr(o, attr)
+        import collections as _cl
+        if isinstance(o, (dict, list, set, frozenset, tuple, _cl.deque)) and not attr.startswith("_") and attr not in ("sort",):
+            try:
+                return getattr(o, attr)
+            except AttributeError:
+                raise AbsRaise(f"AttributeError: {attr}")
         if isinstance(o, set) and attr in ("add", "update"):
             return getattr(o, attr)
         if o is None:
@@ -699,6 +759,39 @@ def _min(*args, default=_SENTINEL):
             raise AbsRaise("ValueError: min() of empty")
         return default
     return min(it)
+
+
+_LIB_ALLOWED = {
+    "builtins": {"sum", "abs", "divmod", "round", "zip", "iter", "next", "hash", "float", "frozenset", "dict", "bytes", "chr", "ord",
+                 "hasattr", "slice", "pow", "bin", "hex", "oct", "format", "ascii", "object", "complex", "bytearray",
+                 # exception classes are plain values here (raised as the payload of AbsRaise, compared by isinstance)
+                 "Exception", "BaseException", "ValueError", "TypeError", "KeyError", "IndexError", "AttributeError", "OSError", "RuntimeError",
+                 "NotImplementedError", "AssertionError", "StopIteration", "KeyboardInterrupt", "SystemExit", "FileNotFoundError",
+                 "OverflowError", "ZeroDivisionError", "LookupError", "ArithmeticError", "IOError", "NameError", "RecursionError"},
+    "collections": {"deque", "Counter", "OrderedDict", "defaultdict", "ChainMap"},
+    "itertools": {"product", "chain", "islice", "count", "repeat", "zip_longest", "accumulate", "permutations", "combinations", "tee", "cycle",
+                  "pairwise", "compress"},
+    "operator": {"getitem", "add", "sub", "mul", "eq", "ne", "lt", "le", "gt", "ge", "not_", "truth", "is_", "is_not", "contains", "neg",
+                 "index", "setitem", "delitem", "concat"},
+    "math": {"floor", "ceil", "isnan", "isinf", "sqrt", "inf", "nan"},
+}
+
+
+def _lib_value(name):
+    """Pure functions / containers of the standard library that may be applied natively to the abstract values (they only
+    move tokens around).  Anything that touches the outside world is not in the allow-list."""
+    mod, _, attr = name.partition(".")
+    if "." in attr:
+        head_, _, rest = attr.partition(".")
+        base = _lib_value(f"{mod}.{head_}")
+        return getattr(base, rest, None) if base is not None and "." not in rest else None
+    if attr in _LIB_ALLOWED.get(mod, ()):
+        import importlib
+        try:
+            return getattr(importlib.import_module(mod), attr)
+        except (ImportError, AttributeError):
+            return None
+    return None
 
 
 PYTYPES = {"builtins.list": list, "builtins.tuple": tuple, "builtins.set": set, "builtins.dict": dict,
